@@ -11,6 +11,10 @@ whitespace-separated tokens:
   MEAS = <len> <0|1>                      (measure_argument: length, vectorised?)
   POOL = <installed 0|1> <inWorker 0|1> <k> (<start> <stop> <tid>)*k
 
+  box  <n> <p_0> .. <p_{n-1}>  <e | b <lo> <hi>>  <POOL>
+       `boxExtendBy hull none` (Box.extendBy(array), one coordinate): n points, the initial box (e = empty);
+       output `e` or `<lo> <hi>`
+
 `vec` runs `applyVectorized`, `mask` runs `applyMaskable` (the in-place operators);
 op in add|sub|mul|rsub on two's-complement integers of <bits> bits.
 Output: `<ok|raise> <usedPool 0|1> <h_0'> .. <h_{H-1}'>`.
@@ -87,7 +91,9 @@ def pool : PM (Option Pool) := do
   let k ← nat
   let rs ← many k (do let s ← nat; let e ← nat; let t ← nat; return (⟨s, e, t⟩ : Range))
   if inst == 0 then return none
-  return some { workers := max 1 k, script := fun _ => rs, inWorkerThread := inw != 0 }
+  -- the scripted pool reports workers() = max tid + 1 (worker ids may repeat in the script)
+  let w := rs.foldl (fun m r => max m (r.tid + 1)) 1
+  return some { workers := w, script := fun _ => rs, inWorkerThread := inw != 0 }
 
 def heapOf (vals : Array Int) : Heap Int := ⟨fun a => vals.getD a 0⟩
 
@@ -95,8 +101,24 @@ def render (ok : Bool) (used : Bool) (H : Nat) (h : Heap Int) : String :=
   let cells := (List.range H).map fun a => toString (h.get a)
   String.intercalate " " ((if ok then "ok" else "raise") :: (if used then "1" else "0") :: cells)
 
+def runBox : PM String := do
+  let n ← nat
+  let pts ← many n int
+  let arr := pts.toArray
+  let k ← tok
+  let box : IBox ← if k == "e" then pure none else do
+    let lo ← int
+    let hi ← int
+    pure (some (lo, hi))
+  let pl ← pool
+  let r := boxExtendBy hull none pl (fun p => let v := arr.getD p 0; some (v, v)) n box
+  return match r with
+    | none => "e"
+    | some (lo, hi) => s!"{lo} {hi}"
+
 def runCase : PM String := do
   let cmd ← tok
+  if cmd == "box" then return (← runBox)
   let opn ← tok
   let bits ← nat
   let H ← nat
